@@ -435,7 +435,7 @@ def run_const_vector(vec, tid: str, prop: str, variant: int = 0) -> dict:
     rng = random.Random(variant)
     shape = tuple(vec["shape"])
     kind = ("int", "float")[variant % 2]
-    a = rec.new(const_poly(rng, shape, kind))
+    a = rec.new(const_poly(rng, shape, kind, exact=True))
     family = {"sum": ["sum", "any", "count_nonzero"], "prod": ["prod", "all"], "mean": ["mean", "amax", "max"],
               "cumsum": ["cumsum", "argmax", "argmin", "amin", "min"]}[vec["fn"]]
     fn = family[(variant // 2) % len(family)]
